@@ -1,6 +1,7 @@
-/* Correspondence harness for src/containers/qlisttbl.c (property C08).
+/* Correspondence harness for src/containers/qlisttbl.c (property C08, and the list-table part of
+ * C11 / C12 / C15).
  * One operation per input line, one result line per operation (see Driver/ListTbl.lean):
- *   <api result> | <u><c><t><f> <num> [name(hash)=data,...]
+ *   <api result> | <u><c><t><f> <num> live=<n> [name(hash)=data,...]
  * The node order is read through the public structs (first/next) after every operation and the
  * backward chain (last/prev) must mirror it, otherwise the dump ends with BACKLINKS-BROKEN.
  *
@@ -10,10 +11,41 @@
  * the Lean driver mirrors exactly: `live` (no operation that can free a node other than a
  * removeobj through CUR itself ran since CUR was filled) and `fresh` (CUR was filled by the last
  * successful getnext and nothing at all was modified since). `next` needs live, `rmobj` needs
- * fresh; otherwise the line is answered `skip` without calling the library. */
+ * fresh; otherwise the line is answered `skip` without calling the library.
+ *
+ * Allocation overlay (linked against libqw.a, see allocwrap.h): `fault k` / `faultfrom k` arm a
+ * failure for the NEXT library call; the result of every call that may allocate starts with
+ * `allocs=<attempts>`; `live=` = blocks the library holds for the container (copies handed to the
+ * caller excluded). Copies returned by copying accessors are kept with a private duplicate and
+ * re-compared when the container is released (`end`); the caller's key / value buffers are
+ * overwritten right after each put. */
 #include "common.h"
+#include "allocwrap.h"
 #include "qlibc.h"
 #include <inttypes.h>
+
+typedef struct { void *p; void *dup; size_t n; } kept_t;
+static kept_t *kept; static size_t nkept, capkept;
+static long kept_bad = 0;
+static void keep(void *p, size_t n) {
+    if (!p) return;
+    if (nkept == capkept) { capkept = capkept ? capkept * 2 : 256; kept = realloc(kept, capkept * sizeof(*kept)); }
+    kept[nkept].p = p; kept[nkept].n = n; kept[nkept].dup = malloc(n ? n : 1); memcpy(kept[nkept].dup, p, n); nkept++;
+    if (nkept > 4096) {      /* bound the memory: release the oldest half after checking it */
+        size_t h = nkept / 2;
+        for (size_t i = 0; i < h; i++) { if (memcmp(kept[i].p, kept[i].dup, kept[i].n)) kept_bad++; vf_free(kept[i].p); free(kept[i].dup); }
+        memmove(kept, kept + h, (nkept - h) * sizeof(*kept)); nkept -= h;
+    }
+}
+static long check_kept(void) {
+    long bad = kept_bad;
+    for (size_t i = 0; i < nkept; i++) {
+        if (memcmp(kept[i].p, kept[i].dup, kept[i].n)) bad++;
+        vf_free(kept[i].p); free(kept[i].dup);
+    }
+    nkept = 0; kept_bad = 0;
+    return bad;
+}
 
 static qlisttbl_t *T = NULL;
 static int OPT[4];
@@ -21,9 +53,10 @@ static qlisttbl_obj_t CUR;
 static bool live = true, fresh = false;
 static char path[64];
 
-static qlisttbl_t *mk(int u, int c, int t, int f) {
+static qlisttbl_t *mk(int u, int c, int t, int f, int ts) {
     return qlisttbl((u ? QLISTTBL_UNIQUE : 0) | (c ? QLISTTBL_CASEINSENSITIVE : 0)
-                    | (t ? QLISTTBL_INSERTTOP : 0) | (f ? QLISTTBL_LOOKUPFORWARD : 0));
+                    | (t ? QLISTTBL_INSERTTOP : 0) | (f ? QLISTTBL_LOOKUPFORWARD : 0)
+                    | (ts ? QLISTTBL_THREADSAFE : 0));
 }
 
 static void show_obj(const char *name, uint32_t hash, const void *data, size_t size) {
@@ -33,7 +66,7 @@ static void show_obj(const char *name, uint32_t hash, const void *data, size_t s
 }
 
 static void dump(void) {
-    printf(" | %d%d%d%d %zu [", OPT[0], OPT[1], OPT[2], OPT[3], T->num);
+    printf(" | %d%d%d%d %zu live=%ld [", OPT[0], OPT[1], OPT[2], OPT[3], T->num, aw_live - (long) nkept);
     size_t n = 0;
     qlisttbl_obj_t *o, *lastseen = NULL;
     for (o = T->first; o != NULL; o = o->next) {
@@ -48,15 +81,18 @@ static void dump(void) {
 
 static void reset_cur(void) { memset(&CUR, 0, sizeof(CUR)); live = true; fresh = false; }
 
-/* one getnext call through CUR; prints `true <obj>` or `false ENOENT` */
-static bool do_next(const char *name, bool newmem) {
+/* one getnext call through CUR; prints `true <obj>` or `false <errno>` */
+static bool do_next(const char *name, bool newmem, bool window) {
     errno = 0;
+    if (window) aw_begin();
     bool r = T->getnext(T, &CUR, name, newmem);
+    int e = errno;
+    if (window) printf("allocs=%ld ", aw_end());
     if (r) {
         printf("true ");
         show_obj(CUR.name, CUR.hash, CUR.data, CUR.size);
-        if (newmem) { free(CUR.name); free(CUR.data); }
-    } else printf("false %s", errname(errno));
+        if (newmem) { keep(CUR.name, strlen(CUR.name) + 1); keep(CUR.data, CUR.size); }
+    } else printf("false %s", errname(e));
     return r;
 }
 
@@ -77,19 +113,25 @@ static char *file_body(size_t *n) {
     char *b = malloc(sz - off + 1);
     memcpy(b, all + off, sz - off);
     *n = sz - off;
-    free(all);
+    vf_free(all);                                                /* allocated by the library */
     return b;
+}
+
+static void put_result(bool r, int e) {
+    fresh = false; if (OPT[0]) live = false;
+    printf("allocs=%ld ", aw_end());
+    if (r) printf("true"); else printf("false %s", errname(e));
 }
 
 int main(void) {
     char *line = NULL; size_t cap = 0; ssize_t len;
-    setvbuf(stdout, NULL, _IOFBF, 1 << 16);
+    harness_init();
     const char *tmp = getenv("TMPDIR");
     snprintf(path, sizeof(path), "%s/qlt_XXXXXX", (tmp && strlen(tmp) < 40) ? tmp : "/tmp");
     int fd = mkstemp(path);
     if (fd < 0) { perror("mkstemp"); return 3; }
     close(fd);
-    T = mk(0, 0, 0, 0);
+    T = mk(0, 0, 0, 0, 0);
     reset_cur();
     while ((len = getline(&line, &cap, stdin)) > 0) {
         char *w[MAXW]; int nw = split_words(line, w);
@@ -97,7 +139,7 @@ int main(void) {
         const char *op = w[0];
         bytes_t a = {0, 0}, d = {0, 0};
         char *name = NULL;
-        bool keyed = !strcmp(op, "put") || !strcmp(op, "putstr") || !strcmp(op, "putint") || !strcmp(op, "get")
+        bool keyed = !strcmp(op, "put") || !strcmp(op, "putstr") || !strcmp(op, "putstrf") || !strcmp(op, "putint") || !strcmp(op, "get")
                   || !strcmp(op, "getstr") || !strcmp(op, "getint") || !strcmp(op, "getmulti") || !strcmp(op, "rm")
                   || !strcmp(op, "nextn") || !strcmp(op, "walkn");
         if (keyed) {
@@ -105,63 +147,115 @@ int main(void) {
             name = cstr_exact(&a);
         }
         errno = 0;
-        if (!strcmp(op, "new") && nw == 5) {
+        if ((!strcmp(op, "fault") || !strcmp(op, "faultfrom")) && nw == 2) {
+            aw_arm(atol(w[1]), op[5] == 'f');
+            printf("ok"); dump(); printf("\n");
+            free(a.p); free(d.p); free(name);
+            continue;
+        }
+        if (!strcmp(op, "new") && (nw == 5 || nw == 6)) {
+            int ts = nw == 6 && w[5][0] == '1';
             T->free(T);
             for (int i = 0; i < 4; i++) OPT[i] = w[i + 1][0] == '1';
-            T = mk(OPT[0], OPT[1], OPT[2], OPT[3]);
+            long before = aw_live;
+            aw_begin();
+            errno = 0;
+            T = mk(OPT[0], OPT[1], OPT[2], OPT[3], ts);
+            int e = errno;
+            printf("allocs=%ld ", aw_end());
+            if (T == NULL) {
+                printf("null %s ctorlive=%ld", errname(e), aw_live - before);
+                T = mk(OPT[0], OPT[1], OPT[2], OPT[3], 0);
+            } else printf("ok");
             reset_cur();
-            printf("ok");
         } else if (!strcmp(op, "put") && nw == 4 && unhex(w[3], &d)) {
+            aw_begin();
             bool r = T->put(T, name, d.p, d.n);
-            fresh = false; if (OPT[0]) live = false;
-            printf(r ? "true" : "false %s", errname(errno));
+            int e = errno;
+            memset(name, 0xAA, a.n); memset(d.p, 0xAA, d.n);      /* the caller's buffers are gone (C12) */
+            put_result(r, e);
         } else if (!strcmp(op, "putstr") && nw == 4 && unhex(w[3], &d)) {
             char *s = cstr_exact(&d);
+            aw_begin();
             bool r = T->putstr(T, name, s);
-            fresh = false; if (OPT[0]) live = false;
-            printf(r ? "true" : "false %s", errname(errno));
+            int e = errno;
+            memset(name, 0xAA, a.n); memset(s, 0xAA, d.n);
+            put_result(r, e);
+            free(s);
+        } else if (!strcmp(op, "putstrf") && nw == 4 && unhex(w[3], &d)) {
+            char *s = cstr_exact(&d);
+            aw_begin();
+            bool r = T->putstrf(T, name, "%s", s);
+            int e = errno;
+            memset(name, 0xAA, a.n); memset(s, 0xAA, d.n);
+            put_result(r, e);
             free(s);
         } else if (!strcmp(op, "putint") && nw == 4) {
+            aw_begin();
             bool r = T->putint(T, name, (int64_t) strtoll(w[3], NULL, 10));
-            fresh = false; if (OPT[0]) live = false;
-            printf(r ? "true" : "false %s", errname(errno));
+            int e = errno;
+            memset(name, 0xAA, a.n);
+            put_result(r, e);
         } else if (!strcmp(op, "get") && nw == 4) {
             bool newmem = w[3][0] == '1';
             size_t sz = 12345;
+            aw_begin();
             void *p = T->get(T, name, &sz, newmem);
-            if (p) { printf("data "); puthex(stdout, p, sz); printf(" %zu", sz); if (newmem) free(p); }
-            else printf("null %s", errname(errno));
+            int e = errno;
+            printf("allocs=%ld ", aw_end());
+            if (p) { printf("data "); puthex(stdout, p, sz); printf(" %zu", sz); if (newmem) keep(p, sz); }
+            else printf("null %s", errname(e));
         } else if ((!strcmp(op, "getstr") || !strcmp(op, "getint")) && nw == 3) {
             size_t sz = 0;
             void *p = T->get(T, name, &sz, false);
             if (p && !memchr(p, 0, sz)) printf("nonul");
             else if (op[3] == 's') {
                 errno = 0;
+                aw_begin();
                 char *s = T->getstr(T, name, true);
-                if (s) { printf("str "); puthex(stdout, s, strlen(s)); free(s); }
-                else printf("null %s", errname(errno));
-            } else printf("int %" PRId64, T->getint(T, name));
+                int e = errno;
+                printf("allocs=%ld ", aw_end());
+                if (s) { printf("str "); puthex(stdout, s, strlen(s)); keep(s, strlen(s) + 1); }
+                else printf("null %s", errname(e));
+            } else {
+                errno = 0;
+                aw_begin();
+                int64_t v = T->getint(T, name);
+                int e = errno;
+                printf("allocs=%ld int %" PRId64 "%s", aw_end(), v, e == ENOMEM ? " ENOMEM" : "");
+            }
         } else if (!strcmp(op, "getmulti") && nw == 4) {
-            bool newmem = w[3][0] == '1';
+            /* mode 0: references; 1: copies, kept by the caller (array released here); 2: copies,
+             * released through freemulti() */
+            int mode = w[3][0] - '0';
+            bool newmem = mode != 0;
             size_t n = 12345;
+            aw_begin();
             qlisttbl_data_t *objs = T->getmulti(T, name, newmem, &n);
+            int e = errno;
+            printf("allocs=%ld ", aw_end());
             if (objs) {
                 printf("multi %zu", n);
                 size_t i;
                 for (i = 0; objs[i].type != 0; i++) { printf(" "); puthex(stdout, objs[i].data, objs[i].size); }
                 if (i != n) printf(" END-MARK-AT-%zu", i);
-                T->freemulti(objs);
-            } else printf("null %s %zu", errname(errno), n);
+                if (mode == 1) {
+                    for (i = 0; objs[i].type != 0; i++) keep(objs[i].data, objs[i].size);
+                    vf_free(objs);
+                } else T->freemulti(objs);
+            } else printf("null %s %zu", errname(e), n);
         } else if (!strcmp(op, "rm") && nw == 3) {
+            aw_begin();
             size_t n = T->remove(T, name);
             fresh = false; live = false;
-            printf("removed %zu", n);
+            printf("allocs=%ld removed %zu", aw_end(), n);
         } else if (!strcmp(op, "size") && nw == 1) {
             printf("size %zu", T->size(T));
         } else if (!strcmp(op, "sort") && nw == 1) {
+            aw_begin();
             T->sort(T);
             fresh = false;
-            printf("ok");
+            printf("allocs=%ld ok", aw_end());
         } else if (!strcmp(op, "clear") && nw == 1) {
             T->clear(T);
             fresh = false; live = false;
@@ -171,7 +265,7 @@ int main(void) {
             printf("ok");
         } else if ((!strcmp(op, "next") && nw == 2) || (!strcmp(op, "nextn") && nw == 4)) {
             if (!live) printf("skip");
-            else fresh = do_next(name, w[nw - 1][0] == '1');
+            else fresh = do_next(name, w[nw - 1][0] == '1', true);
         } else if (!strcmp(op, "rmobj") && nw == 1) {
             if (!fresh) printf("skip");
             else {
@@ -181,23 +275,25 @@ int main(void) {
             }
         } else if ((!strcmp(op, "walk") && nw == 2) || (!strcmp(op, "walkn") && nw == 4)) {
             bool newmem = w[nw - 1][0] == '1';
+            aw_arm(0, 0);
             reset_cur();
             printf("walk");
             for (size_t guard = T->num + 2; guard > 0; guard--) {
                 printf(" ");
-                if (!(fresh = do_next(name, newmem))) break;
+                if (!(fresh = do_next(name, newmem, false))) break;
             }
         } else if (!strcmp(op, "walkrm") && (nw == 2 || nw == 4)) {
             /* walk (optionally name-filtered) and remove the i-th returned entry when bit i of mask is set */
             unsigned long mask = strtoul(w[1], NULL, 10);
             bytes_t k = {0, 0}; char *nm = NULL;
             if (nw == 4) { unhex(w[2], &k); nm = cstr_exact(&k); }
+            aw_arm(0, 0);
             reset_cur();
             printf("walkrm");
             size_t i = 0;
             for (size_t guard = T->num + 2; guard > 0; guard--, i++) {
                 printf(" ");
-                if (!do_next(nm, false)) break;
+                if (!do_next(nm, false, false)) break;
                 if (i < 64 && ((mask >> i) & 1)) {
                     errno = 0;
                     bool r = T->removeobj(T, &CUR);
@@ -211,38 +307,59 @@ int main(void) {
             bool enc = w[2][0] == '1';
             if (!enc && !all_values_cstr()) printf("nonul");
             else {
+                errno = 0;
+                aw_begin();
                 bool r = T->save(T, path, (char) sp.p[0], enc);
-                size_t n; char *b = file_body(&n);
-                printf(r ? "saved " : "false "); puthex(stdout, b, n);
-                free(b);
+                int e = errno;
+                printf("allocs=%ld ", aw_end());
+                if (r) {
+                    size_t n; char *b = file_body(&n);
+                    printf("saved "); puthex(stdout, b, n);
+                    free(b);
+                } else printf("false %s", errname(e));
             }
             free(sp.p);
         } else if (!strcmp(op, "load") && nw == 4 && unhex(w[1], &d)) {
             bytes_t sp; unhex(w[2], &sp);
             FILE *f = fopen(path, "wb"); fwrite(d.p, 1, d.n, f); fclose(f);
+            errno = 0;
+            aw_begin();
             ssize_t n = T->load(T, path, (char) sp.p[0], w[3][0] == '1');
+            int e = errno;
             fresh = false; if (OPT[0]) live = false;
-            printf("loaded %zd", n);
+            printf("allocs=%ld loaded %zd%s", aw_end(), n, (n < 0 && e == ENOMEM) ? " ENOMEM" : "");
             free(sp.p);
         } else if (!strcmp(op, "rt") && nw == 6) {
             /* save (encoded) then load into a NEW empty table with the given options, which replaces T */
             bytes_t sp; unhex(w[1], &sp);
+            aw_arm(0, 0);
             bool r = T->save(T, path, (char) sp.p[0], true);
             T->free(T);
             for (int i = 0; i < 4; i++) OPT[i] = w[i + 2][0] == '1';
-            T = mk(OPT[0], OPT[1], OPT[2], OPT[3]);
+            T = mk(OPT[0], OPT[1], OPT[2], OPT[3], 0);
             reset_cur();
             ssize_t n = T->load(T, path, (char) sp.p[0], true);
             printf("%s loaded %zd", r ? "saved" : "false", n);
             free(sp.p);
+        } else if (!strcmp(op, "end") && nw == 1) {
+            /* C11: once the container is released every block it allocated is freed;
+             * C12: the copies handed out must have survived everything including the release */
+            T->free(T);
+            long bad = check_kept();
+            printf("end live=%ld bad=%ld", aw_live, bad);
+            for (int i = 0; i < 4; i++) OPT[i] = 0;
+            T = mk(0, 0, 0, 0, 0);
+            reset_cur();
         } else {
             printf("bad-op");
         }
+        aw_arm(0, 0);       /* an armed failure never outlives the operation it was meant for */
         dump();
         printf("\n");
         free(a.p); free(d.p); free(name);
     }
     T->free(T);
+    check_kept(); free(kept);
     unlink(path);
     free(line);
     return 0;
